@@ -23,6 +23,8 @@ fn main() {
         "meta-record" => xv::twin::cmd_meta_record(rest),
         "bits-replay" => xv::bitsrep::cmd_replay(rest),
         "bits-record" => xv::bitsrep::cmd_record(rest),
+        "codec-replay" => xv::codec::cmd_replay(rest),
+        "codec-record" => xv::codec::cmd_record(rest),
         other => {
             eprintln!("unknown subcommand {}", other);
             2
